@@ -1,0 +1,63 @@
+//go:build verif
+
+package packet
+
+// Contracts for the stream codec (govc, /verif). Comments only.
+//
+// The byte stream is touched only through bufio.Reader.Peek, io.ReadFull and
+// the buffered mercury writer, whose trusted contracts say nothing about how
+// the stream is fragmented; what is proved from them holds for every
+// fragmentation. Ghost: wire = bytes accepted by the writer, ngrow /
+// nreadfull = buffering events of the decoder.
+
+//@ global ErrDetectionOverflow [nonnil] ErrDetectionOverflow != nil
+//@ global ErrReadLimitExceeded [nonnil] ErrReadLimitExceeded != nil
+//@ global ErrInvalidPacketType [nonnil] ErrInvalidPacketType != nil
+//
+// plen(pkt): the length the packet reports (uninterpreted at the interface
+// level; each of the 14 types has an exact contract of its own, C01).
+//@ uninterp func plen(p Generic) int
+//@ interface Generic.Encode(dst []byte) (n int, err error)
+//@   ensures [bound] 0 <= n && n <= len(dst)
+//@   modifies dst[0:len(dst)]
+// Decode changes the receiving packet object only (a packet obtained from
+// Type.New has no slices of its own yet, so nothing else is written).
+//@ interface Generic.Decode(src []byte) (n int, err error)
+//@   ensures [bound] 0 <= n && n <= len(src)
+//@   modifies object($recv)
+//
+//@ func (t Type) New() (pkt Generic, err error)
+//@   ensures [valid] err == nil <==> 1 <= t && t <= 14
+//@   ensures [typed] err == nil ==> pkt != nil && typecode(pkt) == t && as(pkt, *Publish) != nil && fresh(as(pkt, *Publish))
+//@   ensures [invalid] err != nil ==> pkt == nil
+//@   modifies nothing
+//
+// Encoder.Write: exactly Len() bytes are handed to the writer, once, and only
+// if Encode succeeded on a buffer of exactly that length.
+//@ func (e *Encoder) Write(pkt Generic, async bool) (err error)
+//@   requires [enc] e.writer != nil && pkt != nil
+//@   ensures [exact-bytes] err == nil ==> wire == old(wire) + plen(pkt)
+//@   ensures [nothing-on-error] err != nil ==> wire == old(wire)
+//@   modifies wire, ngrow, bufcap, buflen, elemsof(byte)
+//@   at call 1 Encode assert [buffer-is-len] len(buf) == plen(pkt)
+//@ func (e *Encoder) Flush() (err error)
+//@   requires [enc] e.writer != nil
+//@   ensures nflush == old(nflush) + 1
+//@   modifies nflush
+//
+// Decoder.Read: a packet is returned only without an error; the read limit is
+// checked before anything is buffered; the whole packet (exactly the detected
+// length) is read before it is decoded; five continuation bytes are refused.
+//@ func (d *Decoder) Read() (pkt Generic, err error)
+//@   requires [dec] d.reader != nil
+//@   ensures [never-both] (err == nil ==> pkt != nil && typecode(pkt) != 0) && (err != nil ==> pkt == nil)
+//@   ensures [one-packet] nreadfull <= old(nreadfull) + 1
+//@   modifies elemsof(byte), ngrow, nreadfull, bufcap, buflen
+//@   loop 1 invariant [detect] 2 <= detectionLength && detectionLength <= 6 && ngrow == old(ngrow) && nreadfull == old(nreadfull) && d.reader != nil
+//@   at call 1 Grow assert [limit-checked] (limit <= 0 || packetLength <= limit) && packetLength > 0
+//@   at call 1 ReadFull assert [whole-packet] len(buf) == packetLength
+//@   at call 1 Decode assert [whole-buffer] len(buf) == packetLength && nreadfull == old(nreadfull) + 1
+//
+//@ func (d *Decoder) SetReadLimit(limit int64)
+//@   ensures d.limit == limit
+//@   modifies d.limit
